@@ -32,7 +32,7 @@ const (
 	fDropBefore
 	fDropAfter
 	fSilent
-	fLeaderMove // leader moves to another broker, metadata follows; the batch is answered NOT_LEADER
+	fLeaderMove    // leader moves to another broker, metadata follows; the batch is answered NOT_LEADER
 	fLeaderMoveLag // as above, but the old leader keeps answering NOT_LEADER for a while before metadata follows (modelled by the same move: the client refreshes on its own)
 	nFaultLetters
 )
@@ -148,35 +148,35 @@ type icCall struct {
 }
 
 type prodResult struct {
-	sc        *prodScenario
-	newErr    error
-	submitted []*subRec
-	byPtr     map[*sarama.ProducerMessage]*subRec
-	outcomes  []*outRec
-	hooks     []hookEv
-	produced  []sarama.VSimProduced
-	logs      map[string][][]sarama.VRec
-	closeDone bool
-	stuck     bool
-	stuckWho  []string
-	inconcl   string
-	closeErrs int
-	icCalls   []icCall
-	partCalls []partCall
-	rules     []*steerRule
-	syncRets  []*outRec
-	wall      time.Duration
-	faultsUsed int
-	events    []sarama.VSimEvent
+	sc          *prodScenario
+	newErr      error
+	submitted   []*subRec
+	byPtr       map[*sarama.ProducerMessage]*subRec
+	outcomes    []*outRec
+	hooks       []hookEv
+	produced    []sarama.VSimProduced
+	logs        map[string][][]sarama.VRec
+	closeDone   bool
+	stuck       bool
+	stuckWho    []string
+	inconcl     string
+	closeErrs   int
+	icCalls     []icCall
+	partCalls   []partCall
+	rules       []*steerRule
+	syncRets    []*outRec
+	wall        time.Duration
+	faultsUsed  int
+	events      []sarama.VSimEvent
 	requestSeen int64 // C16 flush clause
 }
 
 type partCall struct {
-	Seq int64
-	Ptr *sarama.ProducerMessage
-	N   int32
-	Ret int32
-	Err bool
+	Seq   int64
+	Ptr   *sarama.ProducerMessage
+	N     int32
+	Ret   int32
+	Err   bool
 	Keyed bool
 }
 
